@@ -60,10 +60,14 @@ def run(res, replay=None):
                 "non-trivial = distinct (statement kind, plan shape, outcome) class")
     res.trusted = COMMON_TRUSTED + ["pin vector read through BufferPoolManager.GetPages()", "that EVERY call site pairs its pins is sampled per plan shape, not proved (DESIGN.md §5 C14)"]
     res.assumptions = ["balance of each statement is an observation on the implementation; the theorems lift it to workloads of any length"]
-    go_ok = standard_build(res, need_ocaml=False)
+    go_ok = standard_build(res)
     if not go_ok:
         return
     rng = random.Random(res.seed)
+    # the table-heap model (Model/Heap.v, theorems of Props/C14Heap.v) against the real TableHeap: rid chosen by every insert, in-place /
+    # moved updates, ordered scans, page chain and the pool's pin vector before/after every call (lib/heapcorr.py, verifharness c14h)
+    import heapcorr
+    heapcorr.run_corr(res, random.Random(res.seed * 7919 + 14), 60 if res.tier == "quick" else 800)
     classes = {}
     nrounds = 2 if res.tier == "quick" else 12
     for rnd in range(nrounds):
